@@ -415,6 +415,64 @@ pub fn c08(ctx: &Ctx) -> Report {
                 let s = if rng.chance(1, 2) { rng.bytes(l, &[0, 1, 0xff, 0x57, 0xdb]) } else { rng.any_bytes(l) };
                 c08_session(d, rep, rng, &s, l, &c.cfg.cmp, &keys, "short_string", &progress);
             }
+            // footers whose handles carry boundary values (u32 / u63 / u64 edges)
+            for _ in 0..4 {
+                let edge = |rng: &mut Rng| -> u64 {
+                    match rng.below(8) {
+                        0 => 0,
+                        1 => rng.below(len + 1) as u64,
+                        2 => (1u64 << 32) - rng.below(3) as u64,
+                        3 => (1u64 << 63) - rng.below(3) as u64,
+                        4 | 5 => u64::MAX - rng.below(8) as u64,
+                        6 => u64::MAX / 2 + rng.below(3) as u64,
+                        _ => rng.next(),
+                    }
+                };
+                let mut foot: Vec<u8> = vec![];
+                let pick_pair = |rng: &mut Rng| -> (u64, u64) {
+                    let a = edge(rng);
+                    match rng.below(4) {
+                        0 => (a, edge(rng)),
+                        // offset + size within 8 of u64::MAX without overflowing
+                        1 => (a, (u64::MAX - rng.below(8) as u64).wrapping_sub(a)),
+                        2 => (edge(rng), 0),
+                        _ => (0, a),
+                    }
+                };
+                for _ in 0..2 {
+                    let (o, sz) = pick_pair(rng);
+                    crate::refenc::varint(o as usize, &mut foot);
+                    crate::refenc::varint(sz as usize, &mut foot);
+                }
+                foot.truncate(40);
+                foot.resize(40, 0);
+                foot.extend_from_slice(&[0x57, 0xfb, 0x80, 0x8b, 0x24, 0x75, 0x47, 0xdb]);
+                let mut im = c.img.clone();
+                // keep one of the two handles intact half of the time so that the first block still loads
+                if rng.chance(1, 2) {
+                    let orig = &c.img[len - 48..len - 8];
+                    // first handle of the original footer
+                    let mut k = 0;
+                    let mut seen = 0;
+                    while k < orig.len() && seen < 2 {
+                        if orig[k] & 0x80 == 0 {
+                            seen += 1;
+                        }
+                        k += 1;
+                    }
+                    let mut f2 = orig[..k].to_vec();
+                    let mut second = vec![];
+                    let (o, sz) = pick_pair(rng);
+                    crate::refenc::varint(o as usize, &mut second);
+                    crate::refenc::varint(sz as usize, &mut second);
+                    f2.extend(second);
+                    f2.truncate(40);
+                    f2.resize(40, 0);
+                    foot[..40].copy_from_slice(&f2);
+                }
+                im[len - 48..].copy_from_slice(&foot);
+                c08_session(d, rep, rng, &im, len, &c.cfg.cmp, &keys, "footer_handle_extreme", &progress);
+            }
             // valid checksums over damaged contents
             for _ in 0..6 {
                 let cmp = c.cfg.cmp.clone();
